@@ -75,5 +75,59 @@ theorem no_drop {name : String} {p : Prog} (hm : (name, p) ∈ methods) {tr : Li
   · exact all_paths mS _ q0 okS coord_all hx
   · exact all_paths mS _ q0 okS rand_all hx
 
+/-! ### a geometry fix means an evaluation (closes the `did_fix_geom` case of `C18_src_no_stall`) -/
+
+structure QG where
+  geomstep : Bool
+  eval : Bool
+  chg : Bool
+  retTrue : Bool
+  retFalse : Bool
+  retNone : Bool
+  retExit : Bool
+deriving DecidableEq, Repr
+
+def mG : Mon QG := ⟨fun q a =>
+  if a == "geomstep" then { q with geomstep := true }
+  else if a == "eval" then { q with eval := true }
+  else if a == "chg" then { q with chg := true }
+  else if a == "ret:(True, exit_info)" then { q with retTrue := true }
+  else if a == "ret:(False, None)" then { q with retFalse := true }
+  else if a == "ret:None" then { q with retNone := true }
+  else if a == "ret:exit_info" then { q with retExit := true }
+  else q⟩
+
+def qG0 : QG := ⟨false, false, false, false, false, false, false⟩
+
+/-- `check_and_fix_geometry` ends by `return` only, with `(False, None)` or `(True, exit_info)`; it reports `True` only after
+    calling `geometry_step` -/
+theorem checkfix_geom : allReach mG Gen.Ctrl.checkAndFixGeometry qG0
+    (fun q e => e == .ret && (q.retTrue != q.retFalse) && (!q.retTrue || q.geomstep) && (!q.retFalse || !q.geomstep)) = true := by
+  decide +kernel
+
+/-- `geometry_step` ends by `return` only; it returns `None` (no exit) only after it has evaluated the new point and put it into
+    the model with `change_point` -/
+theorem geomstep_evaluates : allReach mG Gen.Ctrl.geometryStep qG0
+    (fun q e => e == .ret && (q.retNone != q.retExit) && (!q.retNone || (q.eval && q.chg))) = true := by
+  decide +kernel
+
+theorem checkfix_trace {tr : List String} {e : Ending} (hx : Exec Gen.Ctrl.checkAndFixGeometry tr e) :
+    e = .ret ∧ ((mG.run qG0 tr).retTrue = true → (mG.run qG0 tr).geomstep = true) := by
+  have h := all_paths mG _ qG0 _ checkfix_geom hx
+  simp only [Bool.and_eq_true, beq_iff_eq, Bool.or_eq_true, Bool.not_eq_true'] at h
+  refine ⟨h.1.1.1, fun ht => ?_⟩
+  rcases h.1.2 with h1 | h1
+  · rw [ht] at h1; exact absurd h1 (by simp)
+  · exact h1
+
+theorem geomstep_trace {tr : List String} {e : Ending} (hx : Exec Gen.Ctrl.geometryStep tr e) :
+    e = .ret ∧ ((mG.run qG0 tr).retNone = true → (mG.run qG0 tr).eval = true ∧ (mG.run qG0 tr).chg = true) := by
+  have h := all_paths mG _ qG0 _ geomstep_evaluates hx
+  simp only [Bool.and_eq_true, beq_iff_eq, Bool.or_eq_true, Bool.not_eq_true'] at h
+  refine ⟨h.1.1, fun ht => ?_⟩
+  rcases h.2 with h1 | h1
+  · rw [ht] at h1; exact absurd h1 (by simp)
+  · exact h1
+
 end CtrlPaths
 end Dfols
